@@ -45,7 +45,7 @@ PROFILE_B = gen.profile(
     **dict(COMMON, w_stmt=dict(raise_=0.15, read=2.5, with_=2.2, syncitem=0.5))
 )
 HOWS = ["call", "value", "yielded", "yielded_value"]
-MONITORS = ("refeq", "restore", "peek")
+MONITORS = ("refeq", "restore", "peek", "stale")
 
 
 def _shrunk(prog, how, pol, cs, oracle):
